@@ -64,12 +64,12 @@ Fixpoint run_prog (T : wty) (logn : Z) (fuel : nat) (vals : list poly) (steps : 
 Definition fmap_of (keys vals : list Z) : fmap :=
   fold_left (fun m kv => fm_set m (fst kv) (Some (snd kv))) (combine keys vals) fm_empty.
 
-Definition cbt_out (logn base2k dnum rank : Z) (expo : bool) (ld lgo msg : Z) : option (list (list Z)) :=
+Definition cbt_out (logn base2k dnum rank bb : Z) (expo : bool) (ld lgo msg : Z) : option (list (list Z)) :=
   let rows := zseq 0 (Z.to_nat dnum) in
-  match all_some (map (cb_row logn base2k dnum expo ld lgo msg) rows) with
+  match all_some (map (cb_row logn base2k dnum bb expo ld lgo msg) rows) with
   | None => None
   | Some ps =>
-    let ds := map (fun ip => row_decoded base2k dnum (fst ip) (snd ip)) (combine rows ps) in
+    let ds := map (fun ip => row_decoded base2k dnum bb (fst ip) (snd ip)) (combine rows ps) in
     let obs := flat_map (fun d => repeat (match cell_msg logn expo ld lgo d with Some j => j | None => -1 end)
                                          (Z.to_nat (rank + 1))) ds in
     let sparse := flat_map (fun id => flat_map (fun j => if snd id j =? 0 then [] else [fst id; j; snd id j])
@@ -163,8 +163,10 @@ Definition run_c15 (code : Z) (ps : list Z) (vs : list (list Z)) : option (list 
       | Some bit => let '(x, y) := cswap bit (v0 vs 0 0, v0 vs 0 1) in Some [[x; y]]
       | None => None
       end
-    | 15060 => cbt_out logn (p ps 5) (p ps 6) (p ps 7) false (p ps 4) 0 (p ps 3)
-    | 15061 => cbt_out logn (p ps 6) (p ps 7) (p ps 8) true (p ps 4) (p ps 5) (p ps 3)
+    | 15060 => cbt_out logn (p ps 5) (p ps 6) (p ps 7) (p ps 8) false (p ps 4) 0 (p ps 3)
+    | 15061 => cbt_out logn (p ps 6) (p ps 7) (p ps 8) (p ps 9) true (p ps 4) (p ps 5) (p ps 3)
+    | 15062 => cbt_out logn (p ps 6) (p ps 7) (p ps 8) (p ps 9) (negb (p ps 2 =? 0)) (p ps 4) (p ps 5) (p ps 3)
+    | 15055 => Some [[match retrieve (p ps 2) (bits_of 32 (v0 vs 0 0)) (p ps 3) (v vs 1) with Some x => x | None => -1 end]]
     | _ => None
     end
   end.
@@ -288,6 +290,17 @@ Definition oracle_c15 (code : Z) (ps : list Z) (vs outs : list (list Z)) : Z :=
     let nb := Z.log2_up (p ps 2) in
     let idx := (v0 vs 0 0 / 2 ^ p ps 3) mod 2 ^ nb in
     if Z.of_nat (length (v vs 1)) <=? idx then 2 else ok (v0 outs 0 0 =? nth (Z.to_nat idx) (v vs 1) 0)
+  | 15055 =>
+    let nb := Z.log2_up (p ps 2) in
+    let idx := (v0 vs 0 0 / 2 ^ p ps 3) mod 2 ^ nb in
+    if Z.of_nat (length (v vs 1)) <=? idx then 2 else ok (v0 outs 0 0 =? nth (Z.to_nat idx) (v vs 1) 0)
+  | 15062 =>
+    let msg := p ps 3 in let lgo := p ps 5 in let dnum := p ps 7 in let rank := p ps 8 in
+    let e := (if p ps 2 =? 0 then 0 else msg * 2 ^ lgo) mod (2 * n) in
+    let pos := e mod n in
+    let val := if p ps 2 =? 0 then msg else if e <? n then 1 else -1 in
+    ok (list_eqb (v outs 0) (repeat msg (Z.to_nat (dnum * (rank + 1))))
+        && list_eqb (v outs 1) (if val =? 0 then [] else flat_map (fun r => [r; pos; val]) (zseq 0 (Z.to_nat dnum))))
   | 15054 =>
     let bit := (v0 vs 0 2 / 2 ^ p ps 2) mod 2 in
     ok (list_eqb (v outs 0) (if bit =? 1 then [v0 vs 0 1; v0 vs 0 0] else [v0 vs 0 0; v0 vs 0 1]))
